@@ -17,6 +17,7 @@ mod props;
 mod rng;
 mod runner;
 mod sut;
+mod tap;
 
 use runner::{Opts, Prop, ReplayFile, Tier};
 
@@ -29,6 +30,7 @@ macro_rules! for_props {
             $m!(props::c09::C09);
             $m!(props::c17::C17);
             $m!(props::c19::C19);
+            $m!(props::c20::C20);
         }
         #[cfg(huginn_net_verif_sched)]
         {}
